@@ -22,7 +22,14 @@ pub enum Art {
 
 fn art(cheap: bool) -> BoxedStrategy<Art> {
 	prop_oneof![
-		3 => cert_case(CertGenOpts::FULL, cheap).prop_map(Art::Cert),
+		3 => (cert_case(CertGenOpts::FULL, cheap), prop::bool::weighted(0.2)).prop_map(|(mut c, unset_serial)| {
+			// Without a crypto back end there is no default serial: the documented outcome is an error,
+			// which has to be as repeatable as any output.
+			if unset_serial && !cfg!(feature = "crypto") {
+				c.spec.serial = None;
+			}
+			Art::Cert(c)
+		}),
 		1 => csr_case(cheap).prop_map(Art::Csr),
 		1 => crl_case(false, cheap).prop_map(Art::Crl),
 	]
@@ -62,6 +69,12 @@ fn env_for(a: &Art) -> Result<Env, String> {
 pub struct Produced {
 	pub tbs: Vec<u8>,
 	pub full: Vec<u8>,
+	/// the call returned an error (its text): an outcome like any other, which must repeat
+	pub refused: Option<String>,
+}
+
+fn refused(e: rcgen::Error) -> Result<Produced, String> {
+	Ok(Produced { tbs: vec![], full: vec![], refused: Some(e.to_string()) })
 }
 
 /// One generation call through the real API, with the "parameters unchanged" checks.
@@ -73,35 +86,44 @@ fn produce(a: &Art, env: &Env) -> Result<Produced, String> {
 			let cert = match &env.issuer {
 				None => params.self_signed(&env.subject_key),
 				Some((ic, ik)) => params.signed_by(&env.subject_key, ic, ik),
-			}
-			.map_err(|e| format!("generation failed: {e}"))?;
+			};
+			let cert = match cert {
+				Ok(c) => c,
+				Err(e) => return refused(e),
+			};
 			if cert.params() != &input {
 				return Err("the returned certificate reports parameters different from the input".into());
 			}
 			let (d, _) = decode_cert(cert.der())?;
-			Ok(Produced { tbs: d.tbs_raw, full: cert.der().to_vec() })
+			Ok(Produced { tbs: d.tbs_raw, full: cert.der().to_vec(), refused: None })
 		},
 		Art::Csr(c) => {
 			let params = mk::cert_params(&c.spec)?;
 			let input = params.clone();
 			let attrs: Vec<rcgen::Attribute> = c.attrs.iter().map(mk::attribute).collect();
-			let csr = params.serialize_request_with_attributes(&env.subject_key, attrs).map_err(|e| format!("generation failed: {e}"))?;
+			let csr = match params.serialize_request_with_attributes(&env.subject_key, attrs) {
+				Ok(c) => c,
+				Err(e) => return refused(e),
+			};
 			if params != input {
 				return Err("serialize_request altered the parameters".into());
 			}
 			let (d, _) = decode_csr(csr.der())?;
-			Ok(Produced { tbs: d.cri_raw, full: csr.der().to_vec() })
+			Ok(Produced { tbs: d.cri_raw, full: csr.der().to_vec(), refused: None })
 		},
 		Art::Crl(c) => {
 			let params = mk::crl_params(&c.crl)?;
 			let input_dbg = format!("{:?}", params);
 			let (ic, ik) = env.issuer.as_ref().unwrap();
-			let crl = params.signed_by(ic, ik).map_err(|e| format!("generation failed: {e}"))?;
+			let crl = match params.signed_by(ic, ik) {
+				Ok(c) => c,
+				Err(e) => return refused(e),
+			};
 			if format!("{:?}", crl.params()) != input_dbg {
 				return Err("the returned CRL reports parameters different from the input".into());
 			}
 			let (d, _) = decode_crl(crl.der())?;
-			Ok(Produced { tbs: d.tbs_raw, full: crl.der().to_vec() })
+			Ok(Produced { tbs: d.tbs_raw, full: crl.der().to_vec(), refused: None })
 		},
 	}
 }
@@ -143,6 +165,9 @@ fn deterministic_scheme(k: &KeySpec) -> bool {
 }
 
 fn compare(base: &Produced, other: &Produced, signer: &KeySpec, what: &str) -> Result<(), String> {
+	if base.refused != other.refused {
+		return Err(format!("the outcome differs {what}: first {:?}, second {:?}", base.refused.as_deref().unwrap_or("generated"), other.refused.as_deref().unwrap_or("generated")));
+	}
 	if base.tbs != other.tbs {
 		return Err(format!(
 			"to-be-signed bytes differ {what}:\n  first  {}\n  second {}",
@@ -200,6 +225,9 @@ pub fn check_repeat(a: &Art, info: &mut CaseInfo) -> Result<(), String> {
 	let env = env_for(a)?;
 	let before = snapshot(&env);
 	let first = produce(a, &env)?;
+	if first.refused.is_some() {
+		info.class("outcome:refused");
+	}
 	let second = produce(a, &env)?;
 	compare(&first, &second, &env.signer, "between two identical calls")?;
 	unchanged(&before, &snapshot(&env))?;
@@ -294,7 +322,7 @@ pub fn child_main() {
 	let out: Vec<String> = arts
 		.iter()
 		.map(|a| match env_for(a).and_then(|e| produce(a, &e)) {
-			Ok(p) => crate::der::hex(&p.tbs),
+			Ok(p) => p.refused.map(|r| format!("REFUSED {r}")).unwrap_or_else(|| crate::der::hex(&p.tbs)),
 			Err(e) => format!("ERR {e}"),
 		})
 		.collect();
@@ -317,10 +345,13 @@ pub fn check_processes(b: &ProcessBatch, info: &mut CaseInfo) -> Result<(), Stri
 		.arts
 		.iter()
 		.map(|a| match env_for(a).and_then(|e| produce(a, &e)) {
-			Ok(p) => crate::der::hex(&p.tbs),
+			Ok(p) => p.refused.map(|r| format!("REFUSED {r}")).unwrap_or_else(|| crate::der::hex(&p.tbs)),
 			Err(e) => format!("ERR {e}"),
 		})
 		.collect();
+	if local.iter().any(|l| l.starts_with("REFUSED")) {
+		info.class("outcome:refused");
+	}
 	for run in 0..3 {
 		let mut child = Command::new(&exe)
 			.arg("c15-child")
@@ -350,7 +381,7 @@ pub fn check_processes(b: &ProcessBatch, info: &mut CaseInfo) -> Result<(), Stri
 pub fn def() -> PropertyDef {
 	PropertyDef {
 		id: "C15",
-		rule: "Generated certificates / CSRs / CRLs (names of up to 6 attributes; all key algorithms): (a) the same call twice with shared keys and again with rebuilt keys and issuer; (b) after a generated history of 0..6 other generation calls, some sharing the same keys and issuer; (c) 2..16 threads x 1..6 iterations sharing one &KeyPair and one issuer &Certificate; (d) batches evaluated in three fresh child processes (different hash-map seeds). Oracle: identical to-be-signed byte range (cut out by the harness reader), identical complete output for Ed25519 and RSA PKCS#1 v1.5, params() equal to the input, shared key and issuer unchanged. Non-trivial = name with >= 3 attributes, or >= 4 threads, or non-empty prefix, or a cross-process batch.",
+		rule: "Generated certificates / CSRs / CRLs (names of up to 6 attributes; all key algorithms): (a) the same call twice with shared keys and again with rebuilt keys and issuer; (b) after a generated history of 0..6 other generation calls, some sharing the same keys and issuer; (c) 2..16 threads x 1..6 iterations sharing one &KeyPair and one issuer &Certificate; (d) batches evaluated in three fresh child processes (different hash-map seeds). Oracle: identical to-be-signed byte range (cut out by the harness reader), identical complete output for Ed25519 and RSA PKCS#1 v1.5, the same error when the call is refused (e.g. no serial number in a build without a crypto back end), params() equal to the input, shared key and issuer unchanged. Non-trivial = name with >= 3 attributes, or >= 4 threads, or non-empty prefix, or a cross-process batch.",
 		assumptions: vec!["thread interleavings are sampled by the OS scheduler, not enumerated", "the harness reader finds the signed byte range"],
 		subs: vec![
 			prop_sub("repeat", 15_000, 300_000, || art(false), check_repeat),
